@@ -66,6 +66,11 @@ ORIGINS = {
         ("new_locked()+resize", "RwL", "    let mut r = HeapBytes::new_locked().unwrap();\n    r.resize(32, 7);\n"),
         ("clone of a locked region", "RwL", "    let r0 = HeapBytes::from_slice_into_locked(&src).unwrap();\n    let mut r = r0.clone();\n"),
         ("clone of a read-only locked region", "RoL", "    let r0 = HeapBytes::from_slice_into_readonly_locked(&src).unwrap();\n    let mut r = r0.clone();\n"),
+        # region lengths around the page size (the main table uses 32 bytes): one byte into a second page, exactly one page
+        ("from_slice_into_locked, 4097 bytes", "RwL", "    let big = [9u8; 4097];\n    let mut r = HeapBytes::from_slice_into_locked(&big).unwrap();\n"),
+        ("from_slice_into_readonly_locked, 4097 bytes", "RoL", "    let big = [9u8; 4097];\n    let mut r = HeapBytes::from_slice_into_readonly_locked(&big).unwrap();\n"),
+        ("from_slice_into_locked, 4096 bytes", "RwL", "    let big = [9u8; 4096];\n    let mut r = HeapBytes::from_slice_into_locked(&big).unwrap();\n"),
+        ("from_slice_into_locked, 1 byte", "RwL", "    let one = [9u8; 1];\n    let mut r = HeapBytes::from_slice_into_locked(&one).unwrap();\n"),
     ],
     "HeapByteArray<32>": [
         ("StackByteArray::mlock()", "RwL", "    let mut r = StackByteArray::<32>::from(src).mlock().unwrap();\n"),
@@ -82,7 +87,10 @@ LIGHT_OPS = {
     "read_view(as_slice)": "let v = r.as_slice().len();",
     "mutable_view(as_mut_slice)": "r.as_mut_slice()[0] = 1;",
     "unlock": "let t = r.munlock();",
-    "read_write_then_write": "let mut t = r.mprotect_readwrite().unwrap(); t.as_mut_slice()[0] = 1;",
+    "read_write_then_write": "let mut t = r.mprotect_readwrite().unwrap(); t.as_mut_slice()[0] = 1; let n = t.as_slice().len(); t.as_mut_slice()[n - 1] = 1;",
+    "read_last_byte": "let n = r.as_slice().len(); let v = r.as_slice()[n - 1];",
+    "write_last_byte": "let n = r.as_slice().len(); r.as_mut_slice()[n - 1] = 1;",
+    "read_only_then_read_last": "let t = r.mprotect_readonly().unwrap(); let n = t.as_slice().len(); let v = t.as_slice()[n - 1];",
 }
 
 
@@ -225,9 +233,9 @@ def programs():
                 prefix = ocode + path(ostate, state)
                 for op, stmt in LIGHT_OPS.items():
                     pm = state[:2]
-                    if op == "read_view(as_slice)" and pm == "Na":
+                    if op in ("read_view(as_slice)", "read_last_byte") and pm == "Na":
                         continue
-                    if op == "mutable_view(as_mut_slice)" and pm != "Rw":
+                    if op in ("mutable_view(as_mut_slice)", "write_last_byte") and pm != "Rw":
                         continue
                     cell = "%s via %s|%s|%s" % (container, oname, STATE_NAME[state], op)
                     body = HEADER + prefix
